@@ -159,22 +159,28 @@ func findPathX(starts []point, edges EdgeFilter, avoid, target InstrPred, boolVa
 		p     point
 		prev  int
 		facts map[*ssa.Phi]bool
+		nn    *nilFacts // nil-ness of error values and error cells established on this path
 	}
 	var queue []st
 	visited := map[string]bool{} // block index + facts
-	fkey := func(b *ssa.BasicBlock, f map[*ssa.Phi]bool) string {
-		if len(f) == 0 {
+	fkey := func(b *ssa.BasicBlock, f map[*ssa.Phi]bool, nn *nilFacts) string {
+		if len(f) == 0 && nn.empty() {
 			return fmt.Sprintf("%d", b.Index)
 		}
 		var parts []string
 		for ph, v := range f {
 			parts = append(parts, fmt.Sprintf("%s=%v", ph.Name(), v))
 		}
+		parts = append(parts, nn.keys()...)
 		sortStrings(parts)
 		return fmt.Sprintf("%d|%v", b.Index, parts)
 	}
+	var volatile map[*ssa.Alloc]bool
+	if len(starts) > 0 && starts[0].b != nil && starts[0].b.Parent() != nil {
+		volatile = volatileCells(starts[0].b.Parent())
+	}
 	for _, s := range starts {
-		queue = append(queue, st{s, -1, nil})
+		queue = append(queue, st{s, -1, nil, nil})
 	}
 	mk := func(k int) []*ssa.BasicBlock {
 		var rev []*ssa.BasicBlock
@@ -213,8 +219,10 @@ func findPathX(starts []point, edges EdgeFilter, avoid, target InstrPred, boolVa
 		cur := queue[qi]
 		b := cur.p.b
 		blocked := false
+		nn := cur.nn.clone()
 		for i := cur.p.i; i < len(b.Instrs); i++ {
 			in := b.Instrs[i]
+			nn.apply(in, volatile)
 			if avoid != nil && avoid(in) {
 				blocked = true
 				break
@@ -234,13 +242,23 @@ func findPathX(starts []point, edges EdgeFilter, avoid, target InstrPred, boolVa
 			if !edges(b, si) {
 				continue
 			}
+			snn := nn
 			if iff, ok := b.Instrs[len(b.Instrs)-1].(*ssa.If); ok {
 				if v, ok := known(iff.Cond, cur.facts); ok {
 					if (v && si != 0) || (!v && si != 1) {
 						continue
 					}
 				}
+				if x, trueNonNil, isTest := condNilTest(iff.Cond); isTest && isErrorType(x.Type()) {
+					want := (si == 0) == trueNonNil // on this edge x is non-nil
+					if have, ok := nn.get(x); ok && have != want {
+						continue
+					}
+					snn = nn.clone()
+					snn.set(x, want, volatile)
+				}
 			}
+			snn = snn.enter(b, s)
 			// facts for the successor
 			var nf map[*ssa.Phi]bool
 			pi := -1
@@ -274,12 +292,12 @@ func findPathX(starts []point, edges EdgeFilter, avoid, target InstrPred, boolVa
 					}
 				}
 			}
-			k := fkey(s, nf)
+			k := fkey(s, nf, snn)
 			if visited[k] {
 				continue
 			}
 			visited[k] = true
-			queue = append(queue, st{point{s, 0}, qi, nf})
+			queue = append(queue, st{point{s, 0}, qi, nf, snn})
 			if len(queue) > 200000 {
 				return nil
 			}
@@ -460,4 +478,237 @@ func resolveAlong(v ssa.Value, path []*ssa.BasicBlock) ssa.Value {
 		path = path[:pos]
 	}
 	return v
+}
+
+
+// ---- nil-ness of error values along a path -------------------------------------------------
+//
+// Only error-typed values that take part in a phi or live in a local cell are tracked: these are
+// the shapes in which one error variable carries the outcomes of several steps (named results, and
+// the result temporaries of normalize.go). A test `e != nil` fixes e on both edges; a phi takes the
+// fact of its incoming value (nil constant, or a value fixed earlier on the path); a store to a
+// cell that no closure other than a deferred one captures fixes the cell, a load reads it.
+
+type nilFacts struct {
+	val  map[ssa.Value]bool  // value → is non-nil
+	cell map[*ssa.Alloc]bool // cell → holds non-nil
+}
+
+func (n *nilFacts) empty() bool { return n == nil || (len(n.val) == 0 && len(n.cell) == 0) }
+
+func (n *nilFacts) keys() []string {
+	if n == nil {
+		return nil
+	}
+	var out []string
+	for v, b := range n.val {
+		out = append(out, fmt.Sprintf("n:%s=%v", v.Name(), b))
+	}
+	for c, b := range n.cell {
+		out = append(out, fmt.Sprintf("c:%s=%v", c.Name(), b))
+	}
+	return out
+}
+
+func (n *nilFacts) clone() *nilFacts {
+	out := &nilFacts{val: map[ssa.Value]bool{}, cell: map[*ssa.Alloc]bool{}}
+	if n != nil {
+		for k, v := range n.val {
+			out.val[k] = v
+		}
+		for k, v := range n.cell {
+			out.cell[k] = v
+		}
+	}
+	return out
+}
+
+func (n *nilFacts) get(v ssa.Value) (bool, bool) {
+	if n == nil {
+		return false, false
+	}
+	v = stripConv(v)
+	if isNilConst(v) {
+		return false, true
+	}
+	b, ok := n.val[v]
+	return b, ok
+}
+
+// set records the outcome of a nil test on x (and on the cell x was loaded from).
+func (n *nilFacts) set(x ssa.Value, nonNil bool, volatile map[*ssa.Alloc]bool) {
+	x = stripConv(x)
+	if !trackedErr(x) {
+		return
+	}
+	n.val[x] = nonNil
+	if u, ok := x.(*ssa.UnOp); ok && u.Op == token.MUL {
+		if al, ok := u.X.(*ssa.Alloc); ok && !volatile[al] {
+			n.cell[al] = nonNil
+		}
+	}
+}
+
+// trackedErr: only values that can carry several outcomes are worth a fact (keeps the state small
+// and leaves the search on ordinary code exactly as it was).
+func trackedErr(x ssa.Value) bool {
+	if !isErrorType(x.Type()) {
+		return false
+	}
+	switch v := x.(type) {
+	case *ssa.Phi:
+		return true
+	case *ssa.UnOp:
+		_, ok := v.X.(*ssa.Alloc)
+		return ok && v.Op == token.MUL
+	}
+	// a value that flows into an error phi or an error cell
+	if refs := x.Referrers(); refs != nil {
+		for _, r := range *refs {
+			switch y := r.(type) {
+			case *ssa.Phi:
+				return true
+			case *ssa.Store:
+				if _, ok := y.Addr.(*ssa.Alloc); ok && y.Val == x {
+					return true
+				}
+			}
+		}
+	}
+	return false
+}
+
+// apply: effects of one instruction on the cell facts.
+func (n *nilFacts) apply(in ssa.Instruction, volatile map[*ssa.Alloc]bool) {
+	if n == nil {
+		return
+	}
+	switch x := in.(type) {
+	case *ssa.Store:
+		al, ok := x.Addr.(*ssa.Alloc)
+		if !ok || !isErrorType(x.Val.Type()) {
+			return
+		}
+		if volatile[al] {
+			delete(n.cell, al)
+			return
+		}
+		if b, ok := n.get(x.Val); ok {
+			n.cell[al] = b
+		} else {
+			delete(n.cell, al)
+		}
+	case *ssa.UnOp:
+		if x.Op != token.MUL {
+			return
+		}
+		if al, ok := x.X.(*ssa.Alloc); ok && isErrorType(x.Type()) {
+			if b, ok := n.cell[al]; ok {
+				n.val[x] = b
+			} else {
+				delete(n.val, x)
+			}
+		}
+	}
+}
+
+// enter: facts on arrival in block s over the edge from b — values defined in s are new instances,
+// error phis of s take the fact of their incoming value.
+func (n *nilFacts) enter(b, s *ssa.BasicBlock) *nilFacts {
+	if n.empty() {
+		// still need phi facts from nil constants
+		has := false
+		for _, in := range s.Instrs {
+			ph, ok := in.(*ssa.Phi)
+			if !ok {
+				break
+			}
+			if isErrorType(ph.Type()) {
+				has = true
+			}
+		}
+		if !has {
+			return n
+		}
+	}
+	out := n.clone()
+	for v := range out.val {
+		if in, ok := v.(ssa.Instruction); ok && in.Block() == s {
+			delete(out.val, v)
+		}
+	}
+	pi := -1
+	for k, pb := range s.Preds {
+		if pb == b {
+			pi = k
+		}
+	}
+	for _, in := range s.Instrs {
+		ph, ok := in.(*ssa.Phi)
+		if !ok {
+			break
+		}
+		if !isErrorType(ph.Type()) || pi < 0 || pi >= len(ph.Edges) {
+			continue
+		}
+		if v, ok := n.get(ph.Edges[pi]); ok {
+			out.val[ph] = v
+		}
+	}
+	return out
+}
+
+// volatileCells: local cells captured by a closure that is not merely deferred (it may run, and
+// assign the cell, at any call).
+func volatileCells(fn *ssa.Function) map[*ssa.Alloc]bool {
+	out := map[*ssa.Alloc]bool{}
+	for _, b := range fn.Blocks {
+		for _, in := range b.Instrs {
+			mc, ok := in.(*ssa.MakeClosure)
+			if !ok {
+				continue
+			}
+			deferOnly := true
+			if refs := mc.Referrers(); refs != nil {
+				for _, r := range *refs {
+					switch y := r.(type) {
+					case *ssa.Defer:
+						if y.Call.Value != ssa.Value(mc) {
+							deferOnly = false
+						}
+					case *ssa.DebugRef:
+					default:
+						deferOnly = false
+					}
+				}
+			}
+			if deferOnly {
+				continue
+			}
+			for _, bnd := range mc.Bindings {
+				if al, ok := bnd.(*ssa.Alloc); ok {
+					out[al] = true
+				}
+			}
+		}
+	}
+	// a cell whose address escapes otherwise (passed to a call) is volatile too
+	for _, b := range fn.Blocks {
+		for _, in := range b.Instrs {
+			al, ok := in.(*ssa.Alloc)
+			if !ok {
+				continue
+			}
+			if refs := al.Referrers(); refs != nil {
+				for _, r := range *refs {
+					switch r.(type) {
+					case *ssa.Store, *ssa.UnOp, *ssa.DebugRef, *ssa.MakeClosure:
+					default:
+						out[al] = true
+					}
+				}
+			}
+		}
+	}
+	return out
 }
